@@ -21,6 +21,8 @@ for p in $V/harmless/${HARMLESS_GLOB:-harmless-*}.diff; do
       echo -e "$k\tC$i\t$rc\t$v" >> /tmp/harmlesspar/result.tsv
     done
   ) > /tmp/harmlesspar/worker.$k.log 2>&1 &
+  # at most ${HARMLESS_JOBS:-7} patches at a time (each worker builds its own copy of the Coq development)
+  while [ $(jobs -rp | wc -l) -ge ${HARMLESS_JOBS:-7} ]; do sleep 5; done
 done
 wait
 sort /tmp/harmlesspar/result.tsv -o /tmp/harmlesspar/result.tsv
